@@ -19,6 +19,7 @@ EXPLANATION = (
     "body, and the whole item is parsed by syn: Rust's grammar decides acceptance, not a hand-written category list. Tail fragments (struct-level ghost lines, "
     "..update) are assembled into every context they are pushed in. R3: enum bodies: every arm shape of render_enum_line / render_enum_ghost_line / default case "
     "parses inside `match`, and enum_main_code_block yields a valid body for every kind. Cells that validation rejects or that panic are C16's.")
+EXPLANATION += ' R7 imports the nested-parent path contract (C03.R10): the member chain spliced into field expressions is a well-formed `.a.b.c`.'
 NOT_DECIDED = ["well-formedness of user-supplied tokens (excluded by the statement)", "type-correctness of the item (rustc)"]
 
 
